@@ -178,3 +178,18 @@ Proof.
   rewrite (C13_findRelative_is_translation N ex_tree 1 [0x2f; 0x02; 0x50;0x43;0x49;0x30; 0x49;0x44;0x45;0x30] 64);
     [ reflexivity | reflexivity | vm_compute; repeat constructor | vm_compute; repeat constructor | vm_compute; discriminate ].
 Qed.
+
+(** CreateDefaultScopes run by the translation on the empty tree: six scopes, the root holds the other five in order *)
+Example C13_trans_run_CreateDefaultScopes :
+  match go_aml_ObjectTree_CreateDefaultScopes (tr_tree (V := N) NewObjectTree) 3 table_oracle with
+  | GOk (g, _) =>
+      map f_Object_name (f_ObjectTree_objPool g) =
+        [[92; 0; 0; 0]; [95; 71; 80; 69]; [95; 80; 82; 95]; [95; 83; 66; 95]; [95; 83; 73; 95]; [95; 84; 90; 95]] /\
+      map f_Object_parentIndex (f_ObjectTree_objPool g) = [0xffffffff; 0; 0; 0; 0; 0] /\
+      map f_Object_nextSiblingIndex (f_ObjectTree_objPool g) = [0xffffffff; 2; 3; 4; 5; 0xffffffff] /\
+      option_map f_Object_firstArgIndex (nth_error (f_ObjectTree_objPool g) 0) = Some 1 /\
+      option_map f_Object_lastArgIndex (nth_error (f_ObjectTree_objPool g) 0) = Some 5 /\
+      GOk (g, tt) = lift (fun t' => (tr_tree t', tt)) (CreateDefaultScopes (V := N) NewObjectTree 3)
+  | _ => False
+  end.
+Proof. vm_compute. repeat split. Qed.
